@@ -3,6 +3,7 @@ CONSTANTS
   FooterLens = {0, 1, 9, 57, 60, 64}
   AadLens = {0, 7, 60}
   V1SecretLens = {1186, 1187, 1188, 1189, 1190, 1191, 1192, 1193, 1194, 1195, 1196}
+  BigTuples <- BigThorough
 INIT Init
 NEXT Next
 INVARIANTS Emit Lengths
